@@ -17,6 +17,10 @@ def plan(tier, seed):
                shape=dict(old_ids=ids), env=dict(VERIF_OLD_IDS=ids))
         j["name"] += "[ids=%s]" % ids
         jobs.append(j)
+    envc = dict(VERIF_ENC="dict", VERIF_OUT="cat", VERIF_OPTIONAL=0, VERIF_WIDTH=8, VERIF_SELFMADE=1)
+    for h in ("h_cat_two_groups", "h_cat_two_groups_rest"):
+        jobs.append(ch("C07", "vf/pyshim/h_v2.py", h, t, ["core.read_col (dictionary page of each row group; shared "
+                                                          "categorical output)"], env=envc))
     from . import cats
     jobs += cats.jobs("C07", tier)
     jobs.append(ch("C07", "vf/pyshim/h_wc.py", "h_cat_dictionary", t,
